@@ -28,7 +28,8 @@ func checkC11(c *Ctx) {
 	}
 	sites := c.goSites(c.All)
 	c.Extra["go_statements"] = len(sites)
-	c.Floor("GO-WG", 3)
+	c.Floor("GO-WG", 6)
+	c.Floor("GO-ALIAS", 3)
 	c.Floor("GO-CLOSE", 3)
 	nscope := 0
 	launchers := map[*ast.BlockStmt]*goSite{}
@@ -39,6 +40,8 @@ func checkC11(c *Ctx) {
 		nscope++
 		launchers[s.launcher] = s
 		c.goWG("GO-WG", s, clauseTerm)
+		c.goWGCount("GO-WG", s, clauseTerm)
+		c.sendAliases("GO-ALIAS", s, clauseRace)
 		if s.lit != nil && s.inLoop {
 			fs := c.goWrite(s)
 			key := s.key() + "/shared-stores"
